@@ -643,6 +643,10 @@ def run(tier, seed, replay=None):
                     # analyze_python_source is the same visitor behind ast.parse
                     if ap and [(v.kind, v.detail) for v in H.analyze_python_source(src_bytes)] != il:
                         out.disagreements.append({"correspondence": "analyze_python_source <-> SafetyAnalyzer.visit", "script": s.text})
+                    # ... and hands its allow_print argument on (no caller in /repo passes False; the API does)
+                    if not ap and [(v.kind, v.detail) for v in H.analyze_python_source(src_bytes, False)] != il:
+                        out.disagreements.append({"correspondence": "analyze_python_source(allow_print=False) <-> SafetyAnalyzer(allow_print=False).visit",
+                                                  "script": s.text})
                 # analyze_python_source with base: the sibling check over imported_roots
                 if s.siblings or idx % 11 == 0:
                     names = {n.split("/")[0] for n, _ in s.siblings}
